@@ -326,6 +326,14 @@ class RngModel:
     def random(self, *a, **k):
         raise ShimGap('rng.random')
 
+    def spawn(self, n):
+        """child generators (np.random.Generator.spawn): independent
+        streams identified by (parent, index)"""
+        kids = [RngModel(('spawned', self.seed, i), tag=f"{self.tag}.s{i}")
+                for i in range(int(n))]
+        self.spawned = getattr(self, 'spawned', []) + kids
+        return kids
+
 
 class _Random:
     def __init__(self, shim):
